@@ -297,6 +297,21 @@ def cases(tier):
             else:
                 bg, bs = [f"r = {cg}"] + obs + done, [f"r = {cs}"] + obs + done
             out.append((f"instantiation-type:{sn}[{xn}]", g, sp, bg, bs, "a: int", [("int",)]))
+    # --- T16 a NESTED function inside a function that is monomorphised more than once (non-capturing / capturing,
+    #         recursive / not): every instance of the enclosing function needs its own complete nested function
+    for cap, rec in itertools.product(("non-capturing", "capturing"), ("recursive", "plain")):
+        step = "rec(n - 1) + 1 + y * 0" if cap == "capturing" else "rec(n - 1) + 1"
+        if rec == "plain":
+            step = "n + y * 0" if cap == "capturing" else "n + 0"
+        nested = f"    def rec(n: int) -> int:\n        if n <= 0:\n            return 0\n        return {step}\n"
+        g = "@guppy\ndef outer(b: bool @comptime, y: int) -> int:\n" + nested + "    if b:\n        return outer(False, y) + 100\n    return rec(y)\n"
+        sp = ("@guppy\ndef outer_f(y: int) -> int:\n" + nested + "    return rec(y)\n\n"
+              "@guppy\ndef outer_t(y: int) -> int:\n" + nested + "    if True:\n        return outer_f(y) + 100\n    return rec(y)\n")
+        cg = {"t": 'result("r", outer(True, 3))', "f": 'result("s", outer(False, 2))'}
+        cs = {"t": 'result("r", outer_t(3))', "f": 'result("s", outer_f(2))'}
+        for order in (("t",), ("t", "f"), ("f", "t")):       # which instances main asks for, in which order
+            out.append((f"nested-function-in-twice-monomorphised[{cap},{rec},{'+'.join(order)}]", g, sp, [cg[k] for k in order],
+                        [cs[k] for k in order], "a: int", [("int",)]))
     # --- T10 generic calls generic with different parameter order
     for t, n in itertools.product(["int", "float"], [1, 3]):
         g = ("@guppy\ndef inner[n: nat, T: Copy](xs: array[T, n], i: int) -> T:\n    return xs[i]\n\n"
